@@ -20,6 +20,8 @@ type memHalf struct {
 	rerr     error // injected read error (delivered after draining)
 	deadline time.Time
 	limit    int // if >0: reader blocks/EOFs after this many total bytes (fault injection)
+	waiting  int // readers currently blocked in Read on an empty buffer (see awaitPeerIdle)
+	expired  bool // virtual clock: the armed read deadline has been declared expired (C10)
 }
 
 func newHalf() *memHalf {
@@ -58,17 +60,26 @@ func (c *memConn) Read(p []byte) (int, error) {
 		if h.closed {
 			return 0, io.EOF
 		}
+		if h.expired {
+			return 0, os.ErrDeadlineExceeded
+		}
 		if !h.deadline.IsZero() {
 			d := time.Until(h.deadline)
 			if d <= 0 {
 				return 0, os.ErrDeadlineExceeded
 			}
 			t := time.AfterFunc(d, func() { h.mu.Lock(); h.cond.Broadcast(); h.mu.Unlock() })
+			h.waiting++
+			h.cond.Broadcast()
 			h.cond.Wait()
+			h.waiting--
 			t.Stop()
 			continue
 		}
+		h.waiting++
+		h.cond.Broadcast()
 		h.cond.Wait()
+		h.waiting--
 	}
 	n := copy(p, h.buf)
 	h.buf = h.buf[n:]
@@ -126,6 +137,27 @@ func (c *memConn) failWrite(err error) {
 	c.wmu.Unlock()
 }
 
+// readQuiescent reports whether everything delivered to this end has been consumed and a reader
+// is blocked waiting for more (virtual-time fault injection waits for this instead of sleeping).
+func (c *memConn) readQuiescent() bool {
+	c.r.mu.Lock()
+	defer c.r.mu.Unlock()
+	return len(c.r.buf) == 0 && c.r.waiting > 0
+}
+
+// fireReadDeadline makes the read deadline armed on this end expire now (virtual clock). It
+// returns false, and does nothing, when no deadline is armed. A later SetReadDeadline re-arms.
+func (c *memConn) fireReadDeadline() bool {
+	c.r.mu.Lock()
+	defer c.r.mu.Unlock()
+	if c.r.deadline.IsZero() {
+		return false
+	}
+	c.r.expired = true
+	c.r.cond.Broadcast()
+	return true
+}
+
 func (c *memConn) LocalAddr() net.Addr  { return memAddr(c.name) }
 func (c *memConn) RemoteAddr() net.Addr { return memAddr("peer-of-" + c.name) }
 func (c *memConn) SetDeadline(t time.Time) error {
@@ -135,6 +167,7 @@ func (c *memConn) SetDeadline(t time.Time) error {
 func (c *memConn) SetReadDeadline(t time.Time) error {
 	c.r.mu.Lock()
 	c.r.deadline = t
+	c.r.expired = false
 	c.r.cond.Broadcast()
 	c.r.mu.Unlock()
 	return nil
@@ -168,4 +201,41 @@ func (l *memListener) dial() *memConn {
 	c, s := memPipe()
 	l.ch <- s
 	return c
+}
+
+// awaitPeerIdle blocks until the peer of this end has consumed everything written so far and is
+// blocked in Read waiting for more ("idle"), or either end was closed ("closed"), or the
+// deadline passed ("timeout"). It is a quiescence signal that needs no sleeping: a server whose
+// command goroutine is blocked reading an empty pipe has written every response it is going to
+// write for the input it has.
+func (c *memConn) awaitPeerIdle(d time.Duration) string {
+	h := c.w
+	deadline := time.Now().Add(d)
+	t := time.AfterFunc(d, func() { h.mu.Lock(); h.cond.Broadcast(); h.mu.Unlock() })
+	defer t.Stop()
+	h.mu.Lock()
+	defer h.mu.Unlock()
+	for {
+		if h.closed {
+			return "closed"
+		}
+		if h.waiting > 0 && len(h.buf) == 0 {
+			return "idle"
+		}
+		if !time.Now().Before(deadline) {
+			return "timeout"
+		}
+		h.cond.Wait()
+	}
+}
+
+// drain returns (and removes) the bytes the peer has written so far, without blocking; eof tells
+// whether the peer closed its side and nothing more will come.
+func (c *memConn) drain() (data []byte, eof bool) {
+	h := c.r
+	h.mu.Lock()
+	defer h.mu.Unlock()
+	data = h.buf
+	h.buf = nil
+	return data, h.closed
 }
